@@ -56,7 +56,7 @@ DotGraphAttrs(mem, ga) == Attr(ga, "g", Cardinality(Members(mem)), 7)
 \* bag equality between a logged sequence of statements and the expected ones
 CountSeq(s, x) == Cardinality({k \in 1..Len(s) : s[k] = x})
 DotOK(mem, o_, i_, ga, na, ea, dot) ==
-  /\ dot.header = "digraph {" /\ dot.footer = "}"
+  \* (the text of the header / footer lines is not part of the statement of C18)
   /\ dot.gattrs = DotGraphAttrs(mem, ga)
   /\ Len(dot.nodes) = Cardinality(Members(mem))
   /\ \A st \in DotNodes(mem, na) : CountSeq(dot.nodes, st) = 1
